@@ -10,7 +10,14 @@ import (
 )
 
 // KeysDir is where the committed harness keys live.
-var KeysDir = "/verif/keys"
+var KeysDir = keysDir()
+
+func keysDir() string {
+	if h := os.Getenv("VERIF_HOME"); h != "" {
+		return h + "/keys"
+	}
+	return "/verif/keys"
+}
 
 // Materialize writes the scenario's tree under root (root is wiped first).
 func Materialize(root string, tree []TreeEntry) error {
